@@ -485,10 +485,17 @@ fn exec_stmt(st: &Sexp) {
                 c.next_cid += 1;
                 c.next_cid - 1
             });
+            // `(2 mode body)`: the cleanup function itself registers cleanups / allocates values /
+            // reads a context - under whichever owner is current while it runs
+            let cbody = st.at(2).clone();
+            let f = move || {
+                log(Lst(vec![Num(1), Num(cid as i64)]));
+                exec_body(&cbody);
+            };
             if st.at(1).num() == 1 {
-                Owner::on_cleanup(move || log(Lst(vec![Num(1), Num(cid as i64)])));
+                Owner::on_cleanup(f);
             } else {
-                on_cleanup(move || log(Lst(vec![Num(1), Num(cid as i64)])));
+                on_cleanup(f);
             }
         }
         13 => {
@@ -751,6 +758,12 @@ fn step(op: &Sexp) {
                 o.cleanup();
             }
         }
+        30 => {
+            // cleaned up while it is itself the current owner
+            if let Some((o, _)) = user(a) {
+                o.with(|| o.cleanup());
+            }
+        }
         12 => drop_owner(a),
         13 => {
             let t = ctx(|c| c.effects.get(a as usize).map(|e| e.1.clone()));
@@ -927,6 +940,9 @@ pub fn run(c: &Sexp) -> Sexp {
     let root = Owner::new();
     ctx(|x| x.owners.push((Some(root.clone()), true, body.clone())));
     root.with(|| exec_body(&body));
+    // like a mounted application: the root scope stays the thread's current owner while the
+    // history runs (cleanup functions and drop glue run under it, unless an op says otherwise)
+    root.set();
     drop(root);
     let o0 = obs();
     let mut trace = vec![];
